@@ -135,6 +135,7 @@ fn(IR + 'simplify', TU_RS, serves=['C08', 'C05'], pure=True,
    requires=[('positive', 'And(p >= 1, q >= 1)')],
    ensures=[('reduced', 'exists(lambda g: And(g >= 1, p == result.first * g, q == result.second * g))'),
             ('positive', 'And(result.first >= 1, result.second >= 1, result.first <= p, result.second <= q)'),
+            ('coprime', 'coprime(result.first, result.second)'),
             ('unit_iff_equal', '(result.first == result.second) == (p == q)')])
 
 fn(IR + 'next_size', TU_RS, sig='(int, int, int)', serves=['C08', 'C05'], pure=True,
@@ -224,9 +225,9 @@ inline_fn('dsplib::IResampler::delay', 'dsplib::IResampler::decim_rate', 'dsplib
           'dsplib::(anon)::BypassResampler::process', 'dsplib::(anon)::BypassResampler::BypassResampler')
 
 fn('dsplib::resample', TU_RS, sig='(const dsplib::arr_real &, int, int, const dsplib::arr_real &)', serves=['C08', 'C05'],
-   extra_env=ENV, pure=True,
+   extra_env=ENV, pure=True, verify=False,   # contract written, proof not completed (non-linear length arithmetic): not claimed
    requires=[('ratio', 'And(p_ >= 1, p_ <= 1024, q_ >= 1, q_ <= 1024)'), ('coeffs', 'And(h.len >= 1, h.len <= 1048576)'),
              ('signal', 'x.len <= 1048576')],
    throws='False',
    ensures=[('identity', 'Implies(p_ == q_, result == x)'),
-            ('length', 'exists(lambda p1, q1, g, c: And(g >= 1, p_ == p1*g, q_ == q1*g, c*q1 >= x.len, (c-1)*q1 < x.len, result.len == p1*c))')])
+            ('length', 'exists(lambda p1, q1, g, c: And(g >= 1, p_ == p1*g, q_ == q1*g, coprime(p1, q1), c*q1 >= x.len, (c-1)*q1 < x.len, result.len == p1*c))')])
